@@ -18,9 +18,6 @@ func init() {
 			methods := []string{"didOpen", "didChange1", "didChange2", "didChange0", "hover", "definition", "documentSymbol", "other"}
 			for p1 := 0; p1 <= 3; p1++ {
 				for p2 := 0; p2 <= 3; p2++ {
-					if tier != "thorough" && (p1+p2)%2 == 1 && p1 != 0 {
-						continue
-					}
 					pre := fmt.Sprintf("%d%d", p1, p2)
 					for _, m := range methods {
 						for u := 0; u < 3; u++ {
@@ -47,7 +44,7 @@ func init() {
 					}
 				}
 			}
-			for t := 0; t < 8; t++ {
+			for t := 0; t < 9; t++ {
 				cases = append(cases, Case{ID: fmt.Sprintf("navigation text=%d", t), Pkg: "internal/lsp", Fn: "ZZC19Nav", Args: []string{fmt.Sprint(t)}, Tag: "navigation"})
 			}
 			// version numbers chosen by the editor (any order)
@@ -57,7 +54,7 @@ func init() {
 			return cases
 		},
 		Bounds: stdBounds(
-			map[string]interface{}{"pre_states": "10 of the 16 states over 2 URIs x {closed, 3 texts} satisfying the invariant", "requests": "8 kinds x 3 URIs x texts of a 3-text alphabet (0-2 content changes)", "cursor": "every line/character in [0, 2^31] (symbolic)", "histories": "any length, by one inductive step from an arbitrary invariant state"},
+			map[string]interface{}{"pre_states": "all 16 states over 2 URIs x {closed, 3 texts} satisfying the invariant", "requests": "8 kinds x 3 URIs x texts of a 3-text alphabet (0-2 content changes)", "cursor": "every line/character in [0, 2^31] (symbolic)", "histories": "any length, by one inductive step from an arbitrary invariant state"},
 			map[string]interface{}{"pre_states": "all 16", "requests": "8 kinds x 3 URIs x all text pairs", "cursor": "symbolic"}),
 		Assumptions: []string{
 			"inductive invariant: every stored document is (latest text, CheckSource(latest text)); it holds initially (no document) and is asserted after the step",
